@@ -319,6 +319,11 @@ def run(tier, seed, replay_file=None):
                     feats = features(t, case["hist"]) + ["classdef"]
                 o.violations.append(Violation(clause=clause, case=case, features=feats, detail=tr if len(o.violations) < 30 else None))
         del traces, results, verdicts
+    if tier == "thorough" and not replay_file:
+        # cross-check (not the deciding engine): Apalache proves Coherent an inductive invariant of the insertion algorithm - any number of
+        # insertions over any names, kinds and ids - and refutes it for the pinned tree's variant, which evicted from one view only
+        from .. import apalache
+        o.extra["apalache"] = [apalache.inductive("NsInd", "CInit", "NoError"), apalache.inductive("NsInd", "CInitPinned", "Error")]
     o.traces = ntraces
     o.distinct_nontrivial = sum(1 for t, hs in hists if any(x["op"] in ("setattr", "add") for x in hs)) + len(cd)
     o.required_cover = ["alias_raised", "readd", "setattr", "add", "get", "del_raised", "subclass_raised", "elab", "export", "classdef", "setattr_raised", "add_raised"]
